@@ -4,7 +4,7 @@ over the proved relation (C09, and the case splits of C01/C04/C11/C15)."""
 import os
 import re
 
-REPO_LIB = "/repo/emulator-2a-lib/src/machine"
+REPO_LIB = os.path.join(os.environ.get("VERIF_REPO", "/repo"), "emulator-2a-lib/src/machine")
 
 FLAGS = ["MAC3", "MAC2", "MAC1", "MAC0", "NA4", "NA3", "NA2", "NA1", "NA0", "BUSWR", "BUSEN",
          "MRGAA3", "MRGAA2", "MRGAA1", "MRGAA0", "MRGAB3", "MRGAB2", "MRGAB1", "MRGAB0",
